@@ -154,6 +154,19 @@ func (w *vPW) addApp(id string) *objects.Application {
 	return app
 }
 
+func nodeInfo(id string, cap *resources.Resource) *si.NodeInfo {
+	return &si.NodeInfo{NodeID: id, SchedulableResource: cap.ToProto()}
+}
+
+func (w *vPW) addAppIn(id, queue string) *objects.Application {
+	app := objects.NewApplication(&si.AddApplicationRequest{ApplicationID: id, QueueName: queue, PartitionName: "default"},
+		security.UserGroup{User: "u1", Groups: []string{"g1"}}, w.rec, "rm-1")
+	if err := w.pc.AddApplication(app); err != nil {
+		vAssert(false, "world: application could not be added")
+	}
+	return app
+}
+
 func vSIAlloc(key, app, node string, res *resources.Resource) *si.Allocation {
 	return &si.Allocation{AllocationKey: key, ApplicationID: app, NodeID: node, ResourcePerAlloc: res.ToProto()}
 }
